@@ -453,3 +453,36 @@ void vf_harness(void) { String* s; char b; String_append_char(s, b); VF_CANARY()
     functions=['String::operator+=(char)', 'String::resize'],
 )
 UNITS += [substring, substr, concat, ctor_txt_n, ctor_copy, append_char]
+
+# ---------------------------------------------------------------------------------------------
+# search: lastIndexOf(const char*) on top of the contract of indexOf(s, i0) (= strstr: first occurrence at or after i0)
+last_index = Unit(
+    'String_lastIndexOf', 'C03',
+    cuts=[Cut('li', S, r'^int String::lastIndexOf\(const char\* s\) const\s*$', methods={'indexOf': 'VF_INDEXOF'},
+              rules=[(r'\(int\)strlen\(s\)', 'g_slen', None), (r'strlen\(s\)', 'g_slen', None)], post=[(r'VF_INDEXOF\(self, s, ', 'VF_INDEXOF(', None)],
+              loops=[(r'while\s*\(', 0, '''
+  __CPROVER_assigns(i, j)
+  __CPROVER_loop_invariant(0 <= i && i <= g_len && -1 <= j && j < i && j <= g_last && (g_last < i ==> j == g_last))
+  __CPROVER_decreases(g_len - i)
+''')])],
+    text=r'''
+#include "vf_base.h"
+int nondet_int(void);
+/* ghost description of the text: length g_len, pattern length g_slen >= 1, g_last = position of the LAST occurrence of the pattern (-1: none) */
+int g_len, g_slen, g_last;
+/* String::indexOf(s, i0) = strstr from offset i0: the FIRST occurrence at or after i0, or -1 */
+static int VF_INDEXOF(int i0) { __CPROVER_assert(0 <= i0 && i0 <= g_len, "indexOf start inside the text");
+  if (i0 > g_last) return -1; int r = nondet_int(); __CPROVER_assume(i0 <= r && r <= g_last); return r; }
+int String_lastIndexOf(void)
+__CPROVER_requires(1 <= g_slen && g_slen <= g_len && g_len <= 1000000 && -1 <= g_last && g_last <= g_len - g_slen)
+/* the result is the position of the last occurrence (overlapping occurrences included), -1 if there is none */
+__CPROVER_ensures(__CPROVER_return_value == g_last)
+__CPROVER_assigns()
+@@li@@
+void vf_harness(void) { String_lastIndexOf(); VF_CANARY(); }
+''',
+    entry='String_lastIndexOf',
+    desc='String::lastIndexOf(const char*): on top of the indexOf/strstr contract, the rescanning loop returns the position of the LAST occurrence for every text and pattern (overlapping matches), and terminates',
+    functions=['String::lastIndexOf(const char*)'], trusted=['String::indexOf(s, i0) = strstr: first occurrence at or after i0'],
+)
+UNITS += [last_index]
